@@ -29,7 +29,9 @@ Definition HEr (u : url) : Prop :=
   st_is_special (scheme_type_of (b_scheme u)) = true ->
     (has_host u = true -> ends_with_byte 47 (htext u) = false)
     /\ (st_is_file (scheme_type_of (b_scheme u)) = false -> has_host u = true).
-Definition FD (u : url) : Prop := PNr u /\ HEr u.
+(* KE = True: both halves; KE = False: the port half alone (it does not need the host half of the base) *)
+Definition FDk (KE : Prop) (u : url) : Prop := PNr u /\ (KE -> HEr u).
+Notation FD := (FDk True).
 
 Lemma scheme_bs u : wf_b u = true -> scheme u = Some (b_scheme u).
 Proof. intros W. rewrite (scheme_text03 u W). reflexivity. Qed.
@@ -55,19 +57,19 @@ Qed.
 
 Theorem fd_pn_he u : wf_b u = true -> (FD u <-> PN u /\ HE u).
 Proof.
-  intros W. unfold FD. pose proof (pnr_pn u W) as A. pose proof (her_he u W) as B. tauto.
+  intros W. unfold FDk. pose proof (pnr_pn u W) as A. pose proof (her_he u W) as B. tauto.
 Qed.
 
 (* the same scheme, host kind, host text and port *)
 Definition same_fd (b u : url) : Prop :=
   b_scheme u = b_scheme b /\ hosti u = hosti b /\ port u = port b /\ (has_host b = true -> htext u = htext b).
 
-Lemma same_fd_FD b u : same_fd b u -> FD b -> FD u.
+Lemma same_fd_FD KE b u : same_fd b u -> FDk KE b -> FDk KE u.
 Proof.
   intros (Es & Eh & Ep & Et) [P H]. assert (has_host u = has_host b) as Ehh by (unfold has_host; rewrite Eh; reflexivity).
   split.
   - intros p Hp. rewrite Es. rewrite Ep in Hp. exact (P p Hp).
-  - unfold HEr. rewrite Es, Ehh. intros Hsp. destruct (H Hsp) as [H1 H2]. split; [|exact H2].
+  - intros ke. specialize (H ke). unfold HEr. rewrite Es, Ehh. intros Hsp. destruct (H Hsp) as [H1 H2]. split; [|exact H2].
     intros Hh. rewrite (Et Hh). exact (H1 Hh).
 Qed.
 
@@ -107,6 +109,8 @@ Variable hp hpo : list N -> result host.
 Variable hd : host -> list N.
 Variable ovr : option (list N -> list N).
 Hypothesis HW : HostWf hp hpo hd.
+Variable KE : Prop.
+Local Notation FD := (FDk KE).
 
 Lemma wf_text_nonempty h : host_text_wf (hd h) -> h <> HDomain [].
 Proof using HW. intros (T1 & _) ->. destruct HW as (_ & _ & W3). rewrite W3 in T1. contradiction. Qed.
@@ -157,7 +161,7 @@ Proof using HW.
     rewrite <- !app_assoc. rewrite nskipn_app_exact. apply nfirstn_app_exact. }
   split.
   - intros p Hp'. rewrite Eb. rewrite E6 in Hp'. exact (Hpt p Hp').
-  - unfold HEr. rewrite Eb, Est. intros Hsp.
+  - intros _. unfold HEr. rewrite Eb, Est. intros Hsp.
     destruct Hh as [(_ & _ & _ & Hns)|Hwf]; [congruence|].
     assert (has_host u = true) as Hh.
     { unfold has_host. rewrite E5. pose proof (hi_of_nonempty h (wf_text_nonempty h Hwf)) as X.
@@ -213,7 +217,7 @@ Theorem parse_relative_fd st b l u : wf_b b = true -> sl1 b -> st_is_file st = f
 Proof using HW.
   intros W Hs Hnf Est Fb. pose proof (path_start_le_len b W) as PL.
   assert (forall v, same_fd b v -> b_scheme v = b_scheme b /\ FD v) as Hsame.
-  { intros v Sv. split; [exact (proj1 Sv) | exact (same_fd_FD b v Sv Fb)]. }
+  { intros v Sv. split; [exact (proj1 Sv) | exact (same_fd_FD KE b v Sv Fb)]. }
   assert (nlen (nfirstn (path_start b) (ser b)) = path_start b) as La by (apply nlen_nfirstn; exact PL).
   destruct (wf_scheme_facts b W) as (S1 & S2 & S3).
   unfold parse_relative, inp_split_first. destruct (inp_next l) as [[c r]|] eqn:En.
@@ -257,7 +261,7 @@ Qed.
 
 (* ---------- the file states ---------- *)
 Lemma file_url_fd s hs he hi qs fs : nfirstn 7 s = s_file_css ->
-  (hi <> HI_None -> ends_with_byte 47 (nfirstn (he - hs) (nskipn hs s)) = false) ->
+  (KE -> hi <> HI_None -> ends_with_byte 47 (nfirstn (he - hs) (nskipn hs s)) = false) ->
   FD (file_url s hs he hi qs fs).
 Proof using.
   intros P7 Ht.
@@ -265,8 +269,8 @@ Proof using.
   { unfold b_scheme, file_url. cbn [scheme_end ser]. rewrite <- (nfirstn_nfirstn 4 7 s) by lia. rewrite P7. reflexivity. }
   split.
   - intros p Hp. discriminate Hp.
-  - unfold HEr. rewrite Eb. intros _. split; [|intros X; discriminate X].
-    intros Hh. unfold htext, piece, file_url. cbn [host_start host_end ser]. apply Ht.
+  - intros ke. unfold HEr. rewrite Eb. intros _. split; [|intros X; discriminate X].
+    intros Hh. unfold htext, piece, file_url. cbn [host_start host_end ser]. apply (Ht ke).
     intros E. unfold has_host, file_url in Hh. cbn [hosti] in Hh. rewrite E in Hh. discriminate.
 Qed.
 
@@ -278,13 +282,13 @@ Qed.
 
 Lemma file_tail_fd st s hs he hi rem s4 qs fs :
   parse_query_and_fragment ovr CUrlParser st 4 s rem = POk (s4, qs, fs) -> nfirstn 7 s = s_file_css -> he <= nlen s ->
-  (hi <> HI_None -> ends_with_byte 47 (nfirstn (he - hs) (nskipn hs s)) = false) ->
+  (KE -> hi <> HI_None -> ends_with_byte 47 (nfirstn (he - hs) (nskipn hs s)) = false) ->
   FD (file_url s4 hs he hi qs fs).
 Proof using.
   intros H P7 Lh Ht. destruct (pqf_shape _ _ _ _ _ _ _ _ H) as (q & f & -> & _). pose proof (css_len7 s P7) as L7.
   apply file_url_fd.
   - rewrite nfirstn_app_le by exact L7. exact P7.
-  - intros Hn. rewrite (pre_piece (nlen s) s _ hs he (agree_pre_app_r s _) Lh). exact (Ht Hn).
+  - intros ke Hn. rewrite (pre_piece (nlen s) s _ hs he (agree_pre_app_r s _) Lh). exact (Ht ke Hn).
 Qed.
 
 Lemma file_fresh_fd st hh l u :
@@ -298,7 +302,7 @@ Proof using.
   pose proof (pinvq_parse_path dbg 7 s_file_css eq_refl _ _ _ _ _ _ _ _ Ha I1) as I2.
   apply (file_tail_fd st s2 _ _ _ rem s3 qs fs Hc (proj1 I2)).
   - exact (css_len7 s2 (proj1 I2)).
-  - intros X. contradiction.
+  - intros _ X. contradiction.
 Qed.
 
 Theorem parse_file_fd st base_file l u :
@@ -314,10 +318,10 @@ Proof using HW.
     destruct (match next_char with Some c => is_slash_or_bslash c | None => false end).
     + (* "//" : file host *)
       intros H. pb H a Ha. destruct a as [[[ser1 flag] hi] remaining].
-      assert (exists t, ser1 = s_file_css ++ t /\ (hi <> HI_None -> ends_with_byte 47 t = false)) as (t & -> & Ht).
+      assert (exists t, ser1 = s_file_css ++ t /\ (KE -> hi <> HI_None -> ends_with_byte 47 t = false)) as (t & -> & Ht).
       { destruct (pfh_shape hp hpo hd HW _ _ _ _ _ _ Ha) as [(-> & ->)|(h & Hne & Hwf & -> & -> & _)].
-        - exists []. split; [rewrite app_nil_r; reflexivity | intros X; contradiction].
-        - exists (hd h). split; [reflexivity | intros _; exact (proj2 (proj2 (proj2 Hwf)))]. }
+        - exists []. split; [rewrite app_nil_r; reflexivity | intros _ X; contradiction].
+        - exists (hd h). split; [reflexivity | intros _ _; exact (proj2 (proj2 (proj2 Hwf)))]. }
       pb H he Hhe. apply to_u32_eq in Hhe. subst he. cbv zeta in H.
       pb H b Hb2. destruct b as [[ser2 hh] rem2].
       assert (exists P, ser2 = (s_file_css ++ t) ++ P) as (P & ->).
@@ -331,14 +335,14 @@ Proof using HW.
       * apply (file_tail_fd st _ _ _ _ rem2 ser4 qs fs Hc).
         -- rewrite P7. apply file_css_pre.
         -- rewrite nlen_app, P7. change (nlen s_file_css) with 7. lia.
-        -- intros X. contradiction.
+        -- intros _ X. contradiction.
       * apply (file_tail_fd st _ _ _ _ rem2 ser4 qs fs Hc P7).
         -- change (nlen (s_file_css ++ t) <= nlen ((s_file_css ++ t) ++ P)). rewrite (nlen_app _ P). lia.
-        -- intros Hn.
+        -- intros ke Hn.
            change (ends_with_byte 47 (nfirstn (nlen (s_file_css ++ t) - 7) (nskipn 7 ((s_file_css ++ t) ++ P))) = false).
            rewrite nlen_app. change (nlen s_file_css) with 7.
            replace (7 + nlen t - 7) with (nlen t) by lia. rewrite <- !app_assoc.
-           change 7 with (nlen s_file_css). rewrite nskipn_app_exact, nfirstn_app_exact. exact (Ht Hn).
+           change 7 with (nlen s_file_css). rewrite nskipn_app_exact, nfirstn_app_exact. exact (Ht ke Hn).
     + (* a single slash *)
       set (T := if negb (starts_with_wdl_segment after_first)
                 then match base_file with
@@ -357,22 +361,22 @@ Proof using HW.
                 else (s_file_css, 7, HI_None)).
       assert (let '(ser1, he, hi) := T in
               7 <= he /\ he <= nlen ser1 /\ nfirstn 7 ser1 = s_file_css /\ forallb pq (nskipn he ser1) = true
-              /\ (hi <> HI_None -> ends_with_byte 47 (nfirstn (he - 7) (nskipn 7 ser1)) = false)) as HT.
+              /\ (KE -> hi <> HI_None -> ends_with_byte 47 (nfirstn (he - 7) (nskipn 7 ser1)) = false)) as HT.
       { assert (7 <= 7 /\ 7 <= nlen s_file_css /\ nfirstn 7 s_file_css = s_file_css /\ forallb pq (nskipn 7 s_file_css) = true
-                /\ (HI_None <> HI_None -> ends_with_byte 47 (nfirstn (7 - 7) (nskipn 7 s_file_css)) = false)) as Hplain
-          by (split; [lia|]; split; [vm_compute; discriminate | split; [reflexivity | split; [reflexivity | intros X; contradiction]]]).
+                /\ (KE -> HI_None <> HI_None -> ends_with_byte 47 (nfirstn (7 - 7) (nskipn 7 s_file_css)) = false)) as Hplain
+          by (split; [lia|]; split; [vm_compute; discriminate | split; [reflexivity | split; [reflexivity | intros _ X; contradiction]]]).
         subst T. destruct (negb (starts_with_wdl_segment after_first)); [|exact Hplain].
         destruct base_file as [base|]; [|exact Hplain].
         destruct (base_first_segment base) as [seg|]; [|exact Hplain].
         destruct (is_normalized_wdl seg) eqn:Ew.
         - destruct (normalized_wdl_form seg Ew) as (a & -> & Ha).
-          split; [lia|]. split; [vm_compute; discriminate|]. split; [apply file_css_pre|]. split; [|intros X; contradiction].
+          split; [lia|]. split; [vm_compute; discriminate|]. split; [apply file_css_pre|]. split; [|intros _ X; contradiction].
           replace 7 with (nlen s_file_css) by reflexivity. rewrite nskipn_app_exact. cbn [app forallb].
           rewrite (pq_alpha a Ha). reflexivity.
         - destruct (host_str base) as [[hs|]|] eqn:Ehs; try exact Hplain.
           split; [rewrite nlen_app; change (nlen s_file_css) with 7; lia|]. split; [lia|]. split; [apply file_css_pre|].
           split; [rewrite nskipn_all by lia; reflexivity|].
-          intros _. destruct Hb as (Wb & _ & [_ Hhe] & Est).
+          intros ke _. destruct Hb as (Wb & _ & [_ Hhe] & Est). specialize (Hhe ke).
           rewrite nlen_app. change (nlen s_file_css) with 7. replace (7 + nlen hs - 7) with (nlen hs) by lia.
           change 7 with (nlen s_file_css). rewrite nskipn_app_exact. rewrite nfirstn_all by lia.
           unfold HEr in Hhe. rewrite Est in Hhe. destruct (Hhe eq_refl) as [H1 _].
@@ -388,15 +392,15 @@ Proof using HW.
       * apply (pinvq_file_pre he (nfirstn he ser1) ser2 H7 Lp); [|exact I2].
         rewrite nfirstn_nfirstn by exact H7. exact P7.
       * exact (pinvq_len he _ Lp ser2 I2).
-      * intros Hn. rewrite (pre_piece he ser1 ser2 7 he Hpre (N.le_refl _)). exact (Ht Hn).
+      * intros ke Hn. rewrite (pre_piece he ser1 ser2 7 he Hpre (N.le_refl _)). exact (Ht ke Hn).
   - destruct base_file as [base|]; [|apply file_fresh_fd].
     destruct Hb as (Wb & Sb & Fb & Est).
     destruct first_char as [c|].
-    2:{ intros H. inversion H; subst u. exact (same_fd_FD base _ (cut_fragment_fd base Wb) Fb). }
+    2:{ intros H. inversion H; subst u. exact (same_fd_FD KE base _ (cut_fragment_fd base Wb) Fb). }
     destruct (c =? 63).
     { intros H. pb H a Ha. destruct a as [[s qs] fs]. inversion H; subst u.
-      exact (same_fd_FD base _ (query_ref_fd base st _ l s qs fs Wb Ha) Fb). }
-    destruct (c =? 35); [intros H; exact (same_fd_FD base _ (fragment_only_fd base l u Wb H) Fb)|].
+      exact (same_fd_FD KE base _ (query_ref_fd base st _ l s qs fs Wb Ha) Fb). }
+    destruct (c =? 35); [intros H; exact (same_fd_FD KE base _ (fragment_only_fd base l u Wb H) Fb)|].
     destruct (negb (starts_with_wdl_segment l)); [|apply file_fresh_fd].
     intros H. pb H s1 Hs1. pb H a Ha. destruct a as [[s2 hh] rem].
     destruct (bq_shape base Wb) as (Ebq & P1 & P2). pose proof (path_start_le_len base Wb) as PL.
@@ -410,7 +414,7 @@ Proof using HW.
                   (N.le_refl _) ltac:(lia) Lp STFile _ _ Hs1 I0) as I1.
     pose proof (pinv_len _ _ _ (N.le_refl _) ltac:(lia) Lp s1 I1) as L1. destruct I1 as [J1 J2].
     destruct (parse_path_shape_file dbg true (path_start base) s1 l s2 hh rem L1 J2 Ha) as (A & B & C & _).
-    apply (same_fd_FD base u); [|exact Fb]. apply (base_path_fd STFile base s2 rem u Wb); [|lia|exact H].
+    apply (same_fd_FD KE base u); [|exact Fb]. apply (base_path_fd STFile base s2 rem u Wb); [|lia|exact H].
     eapply agree_pre_trans; [exact J1 | exact A].
 Qed.
 
@@ -440,7 +444,7 @@ Proof using HW.
     + rewrite Ec. exact Est.
   - destruct (pns_bk dbg hp hpo hd ovr _ _ _ _ u L0 H) as (K1 & K2).
     assert (b_scheme u = sch) as Eb by (unfold b_scheme; rewrite K1, K2; exact L2).
-    split; [|unfold HEr; rewrite Eb, Est; intros X; discriminate X].
+    split; [|intros _; unfold HEr; rewrite Eb, Est; intros X; discriminate X].
     unfold parse_non_special in H. destruct (inp_split_prefix_str s_ss l) as [rm|].
     + refine (proj1 (proj2 (ads_fd STNotSpecial _ _ rm u L0 eq_refl _ H))). rewrite L2. exact Est.
     + pb H ps Hps. pb H a Ha. destruct a as [s1 rem].
@@ -457,7 +461,7 @@ Proof using HW.
   - apply parse_with_scheme_fd. exact Hb.
   - destruct base as [b|]; [|discriminate]. destruct Hb as (W & K & Fb).
     destruct (inp_starts_with_char 35 (input_new_trim_c0 input)).
-    { intros H. exact (same_fd_FD b u (fragment_only_fd b _ u W H) Fb). }
+    { intros H. exact (same_fd_FD KE b u (fragment_only_fd b _ u W H) Fb). }
     rewrite (cannot_be_a_base_eval b W).
     destruct (byte_eqb (ser b) (scheme_end b + 1) 47) eqn:Eb; cbn [negb]; [|discriminate].
     apply byte_eqb_nnth in Eb.
@@ -470,6 +474,16 @@ Qed.
 
 End Arms.
 
+(* ---------- the port half alone: no premise on the host text of the base ---------- *)
+Theorem parse_url_pnr dbg hp hpo hd ovr base input u : HostWf hp hpo hd ->
+  match base with Some b => wf_b b = true /\ bk b /\ PNr b | None => True end ->
+  parse_url dbg hp hpo hd ovr base input = POk u -> PNr u.
+Proof.
+  intros HW Hb Hp. refine (proj1 (parse_url_fd dbg hp hpo hd ovr HW False base input u _ Hp)).
+  destruct base as [b|]; [|exact I]. destruct Hb as (W & K & P). split; [exact W|]. split; [exact K|].
+  split; [exact P | intros X; contradiction].
+Qed.
+
 (* ---------- every parse result: wf_b, host_text_ok, AS, PN, HE - from a base with the same ---------- *)
 Definition inv03 (u : url) : Prop := wfh u /\ AS u /\ PN u /\ HE u.
 
@@ -481,7 +495,7 @@ Proof.
   destruct (parse_url_as_base_ok dbg hp hpo hd ovr base input u HW) as (W & HT & A); [|exact Hp|].
   { destruct base as [b|]; [|exact I]. destruct Hb as ([Wb Tb] & Ab & _). split; [exact Wb|]. split; assumption. }
   split; [split; assumption|]. split; [exact A|]. apply (fd_pn_he u W).
-  apply (parse_url_fd dbg hp hpo hd ovr HW base input u); [|exact Hp].
+  apply (parse_url_fd dbg hp hpo hd ovr HW True base input u); [|exact Hp].
   destruct base as [b|]; [|exact I]. destruct Hb as ([Wb Tb] & Ab & Pb & Eb).
   split; [exact Wb|]. split; [exact (as_bk b Wb Ab)|]. apply (fd_pn_he b Wb). split; assumption.
 Qed.
